@@ -20,7 +20,7 @@ Conventions (DESIGN §3/§4):
   * exceptions swallowed by `purge`'s outer `except Exception` are "no change";
   * mirrors the code AFTER the `fix:` commit for the lock leak (`page_out_at_least` releases
     `pageout_all` again when the lottery has no winners).
-No `sorry`, no Mathlib.
+No Mathlib.
 -/
 namespace EkwVerif.Shm
 
